@@ -132,7 +132,10 @@ def r3(ctx):
         isinstance(x, ast.Call) and isinstance(x.func, ast.Attribute) and x.func.attr == "_process_target" for x in ast.walk(n.elt))]
     ctx.require(len(comps) == 1, "C12.R3: task fan-out over targets not found")
     c = comps[0]
-    ok = len(c.generators) == 1 and unparse(c.generators[0].iter) == "targets" and not c.generators[0].ifs
+    from ..roles import vars_from
+
+    tv = vars_from(f, lambda e: isinstance(e, ast.Call) and isinstance(e.func, ast.Attribute) and e.func.attr == "get_targets")
+    ok = len(c.generators) == 1 and isinstance(c.generators[0].iter, ast.Name) and (c.generators[0].iter.id in tv) and not c.generators[0].ifs
     mk = any(isinstance(x, ast.Call) and unparse(x.func) in ("asyncio.create_task", "asyncio.ensure_future") for x in ast.walk(c.elt))
     tgt_kw = [k for x in ast.walk(c.elt) if isinstance(x, ast.Call) and isinstance(x.func, ast.Attribute) and x.func.attr == "_process_target" for k in x.keywords if k.arg == "target"]
     ok_t = bool(tgt_kw) and unparse(tgt_kw[0].value) == unparse(c.generators[0].target)
